@@ -160,6 +160,11 @@ impl Store {
             }
         }
 
+        // Remove the backup of a previous rebuild: renaming onto a non-empty
+        // lmdb.bak directory fails, after event.map has already been moved away
+        let _ = fs::remove_file(&events_bak_path);
+        let _ = fs::remove_dir_all(&indexes_bak_path);
+
         // Backup existing data (moving out of the way)
         fs::rename(&events_path, &events_bak_path)?;
         fs::rename(&indexes_path, &indexes_bak_path)?;
@@ -236,6 +241,18 @@ impl Store {
         new_txn.commit()?;
 
         new_store.sync()?;
+
+        // Close the backup for real: an LMDB environment stays open (and cached by
+        // its path) until it is explicitly closed, and a later rebuild would then
+        // read this stale environment instead of the one it has just moved aside.
+        drop(old_txn);
+        let Store {
+            indexes: old_indexes,
+            events: old_events,
+            ..
+        } = old_store;
+        old_indexes.close()?;
+        drop(old_events);
 
         if need_chown {
             std::os::unix::fs::chown(&events_path, Some(file_uid), None)?;
